@@ -233,6 +233,12 @@ func (c *checkSchema) ensureShortcutKeysAreValid(node *schema.ObjectNode) error 
 }
 
 func actualRootType(s, root *schema.Schema) json.Type {
+	return actualRootTypeOf(s, root, make(map[*schema.Schema]struct{}, 2))
+}
+
+// actualRootTypeOf follows or shortcuts; a type met again on the way adds no
+// root type of its own (and must not be followed again).
+func actualRootTypeOf(s, root *schema.Schema, seen map[*schema.Schema]struct{}) json.Type {
 	t := s.RootNode().Type()
 	if t != json.TypeMixed {
 		return t
@@ -240,6 +246,7 @@ func actualRootType(s, root *schema.Schema) json.Type {
 
 	// mixed type for example: @aaa | @bbb
 	if n, ok := s.RootNode().(*schema.MixedValueNode); ok {
+		seen[s] = struct{}{}
 		types := make(map[json.Type]struct{}, 2)
 		var tt json.Type
 		for _, tn := range n.GetTypes() {
@@ -247,7 +254,10 @@ func actualRootType(s, root *schema.Schema) json.Type {
 			if err != nil {
 				return json.TypeMixed
 			}
-			tt = actualRootType(ss, root)
+			if _, ok := seen[ss]; ok {
+				continue
+			}
+			tt = actualRootTypeOf(ss, root, seen)
 			types[tt] = struct{}{}
 		}
 		if len(types) == 1 { // all USER TYPES (example: @aaa | @bbb) have the same type (example: string)
